@@ -126,11 +126,21 @@ main (void)
 	mf [0].len = w->dataoffset + nd_n * w->blockwidth ;
 	mf [0].len_min = w->dataoffset ;		/* concrete: the header is there whatever N is */
 	mf [0].pos = mf [0].len ;
+#if defined (UPDATE_NOW) && defined (WPTR_BACK)
+	/* the application seeked back and overwrote frames in the middle: the write pointer is at frame 0, the
+	** file still holds N frames - the header update must describe all N of them */
+	w->write_current = 0 ;
+	mf [0].pos = w->dataoffset ;
+#endif
 #ifdef UPDATE_NOW
 	/* C11: crash point = the instant the header update returns */
 	VASSERT (w->write_header != NULL, "container has a rewritable header") ;
 	rc = w->write_header (w, SF_TRUE) ;
+#ifdef WPTR_BACK
+	VASSERT (mf [0].pos == w->dataoffset, "header update restores the file position") ;
+#else
 	VASSERT (mf [0].pos == w->dataoffset + nd_n * w->blockwidth, "header update restores the file position") ;
+#endif
 	VASSERT (mf [0].len == w->dataoffset + nd_n * w->blockwidth, "header update does not change the file length") ;
 #else
 #ifndef DBG_NO_CLOSE
